@@ -85,6 +85,8 @@ type VC struct {
 	ghostByKey map[string][]string // sort -> ghost terms (for lazy instantiation)
 	consts     []modelConst
 	pre        []string
+	frameSk    map[string]string
+	frameLocs  []modLoc
 	pure       bool
 }
 
@@ -109,6 +111,7 @@ type varDef struct {
 	isAddr bool
 	block  *ssa.BasicBlock
 	pos    token.Pos
+	obj    *types.Var
 }
 
 type iterInfo struct {
@@ -578,9 +581,9 @@ func (vc *VC) newFrame(fn *ssa.Function, prefix string, depth int, stack []strin
 	for _, b := range fn.Blocks {
 		for _, ins := range b.Instrs {
 			if d, ok := ins.(*ssa.DebugRef); ok && d.Object() != nil {
-				if _, isVar := d.Object().(*types.Var); isVar {
+				if ov, isVar := d.Object().(*types.Var); isVar {
 					n := d.Object().Name()
-					fr.vars[n] = append(fr.vars[n], varDef{d.X, d.IsAddr, b, d.Pos()})
+					fr.vars[n] = append(fr.vars[n], varDef{d.X, d.IsAddr, b, d.Pos(), ov})
 				}
 			}
 		}
